@@ -97,3 +97,25 @@ def p_loader():
 
 def p_kept_loader():
     return dds.keep("/c10l/report", p_loader)
+
+
+# --- a waiting function post-processes a completed sub-result in place and then fails
+
+
+def rows_v1():
+    vlog.hit("rows_v1")
+    return [3, 1, 2]
+
+
+def summarize(fail, cls):
+    vlog.hit("summarize")
+    rows = dds.keep("/c10m/rows", rows_v1)
+    rows.sort()
+    rows.append(sum(rows))
+    if fail:
+        raise vlog.make_exc_named("summarize", cls, "boom after the rows were post-processed")
+    return rows
+
+
+def p_mutating(fail, cls):
+    return dds.keep("/c10m/summary", summarize, fail, cls)
